@@ -4,7 +4,9 @@
     theorem holds for all of them. *)
 From Coq Require Import String.
 From Coq Require Import NArith ZArith List.
-From CB Require Import Contract.SchemaJson Contract.SchemaJsonProofs Contract.CcSchemaCodec Contract.CcSchemaCodecProofs.
+From CB Require Import Contract.CcCodec Contract.CcTypes.
+From CB Require Import Contract.SchemaJson Contract.SchemaJsonProofs Contract.SchemaJsonConverse Contract.SchemaJsonContract
+  Contract.CcSchemaCodec Contract.CcSchemaCodecProofs Contract.CcSchemaCodecFuel.
 Import ListNotations.
 Local Open Scope N_scope.
 
@@ -121,3 +123,91 @@ Example schema_roundtrip_nonvacuous :
   /\ firstn 12 (enc_versioned ex_module) = [255; 255; 3; 2; 0; 0; 0; 1; 0; 0; 0; 97].
 Proof. vm_compute. repeat split; reflexivity. Qed.
 Print Assumptions schema_roundtrip_nonvacuous.
+
+(** * The converse direction: bytes -> JSON -> bytes.
+    [ty_distinct_fields]: no struct repeats a field name, no enum a variant name, enums have at most 65536
+    variants, array sizes are u32.  [leaves_rt L]: the leaf text forms parse back (C16's theorems for the
+    real codecs; [stub_leaves] satisfies it).  [bytes_ok]: the input consists of bytes. *)
+
+(** What [to_json] prints is accepted by [from_json]; the bytes it denotes are the bytes that were read,
+    exactly when the type has no LEB128 component (the only non-canonical forms [to_json] reads are LEB128
+    encodings with redundant trailing groups, see [leb_padding_read_not_written]). *)
+Theorem to_json_from_json : forall (L : leaves), leaves_rt L -> forall t bs j rest,
+  ty_wf t = true -> ty_distinct_fields t = true -> bytes_ok bs = true ->
+  to_json L t bs = Some (j, rest) ->
+  exists bs' pre, from_json L t j = Some bs' /\ bs = pre ++ rest /\ (ty_no_leb t = true -> pre = bs').
+Proof. exact to_json_from_json_all. Qed.
+Print Assumptions to_json_from_json.
+
+(** [to_json] returns a suffix of its input. *)
+Theorem to_json_consumes_prefix : forall (L : leaves), leaves_rt L -> forall t bs j rest,
+  ty_wf t = true -> ty_distinct_fields t = true -> bytes_ok bs = true ->
+  to_json L t bs = Some (j, rest) -> exists pre, bs = pre ++ rest.
+Proof.
+  exact (fun L HL t bs j rest Hw Hd Hb H =>
+           match to_json_from_json_all L HL t bs j rest Hw Hd Hb H with
+           | ex_intro _ _ (ex_intro _ pre (conj _ (conj E _))) => ex_intro _ pre E
+           end).
+Qed.
+Print Assumptions to_json_consumes_prefix.
+
+(** Printed JSON is in normal form. *)
+Theorem printed_json_is_normal : forall (L : leaves), leaves_rt L -> forall t bs j rest,
+  ty_wf t = true -> ty_distinct_fields t = true -> bytes_ok bs = true ->
+  to_json L t bs = Some (j, rest) -> normalize L t j = j.
+Proof. exact printed_json_normal. Qed.
+Print Assumptions printed_json_is_normal.
+
+Theorem leaf_hypothesis_satisfiable : leaves_rt stub_leaves.
+Proof. exact stub_leaves_rt. Qed.
+Print Assumptions leaf_hypothesis_satisfiable.
+
+Theorem leb128_padding_is_read_but_not_written :
+  to_json stub_leaves (TULeb128 2) [128; 0] = Some (JStr [48], []) /\ from_json stub_leaves (TULeb128 2) (JStr [48]) = Some [0]
+  /\ to_json stub_leaves (TILeb128 2) [255; 127] = Some (JStr [45; 49], []) /\ from_json stub_leaves (TILeb128 2) (JStr [45; 49]) = Some [127].
+Proof. exact leb_padding_read_not_written. Qed.
+Print Assumptions leb128_padding_is_read_but_not_written.
+
+Example converse_nonvacuous :
+  ty_distinct_fields ex_ty = true /\ ty_no_leb ex_ty = false
+  /\ ty_no_leb (TList SL16 (TStruct (FNamed (NFcons (str_of "a") TU8 (NFcons (str_of "b") TI128 NFnil))))) = true.
+Proof. vm_compute. repeat split; reflexivity. Qed.
+Print Assumptions converse_nonvacuous.
+
+(** * The bytes are the contract-side encoding: for the types with a counterpart among C16's codecs
+    ([codec_of c], built from CcCodec/CcTypes combinators), [from_json] writes [enc] of the value the JSON
+    denotes, and that value is well-formed for the codec. *)
+Theorem bytes_are_contract_encoding : forall (L : leaves) c j bs, json_wf j = true ->
+  from_json L (ty_of c) j = Some bs ->
+  exists v, denote c j = Some v /\ wf (codec_of c) v /\ bs = enc (codec_of c) v.
+Proof. exact bytes_are_contract_encoding_all. Qed.
+Print Assumptions bytes_are_contract_encoding.
+
+Example contract_encoding_nonvacuous :
+  let c := CMap SL32 (CUint W8) (CPair (COption (CSint W64)) (CString SL32)) in
+  let j := JArr [JArr [JNum 7%Z; JArr [JObj [(s_Some, JArr [JNum (-2)%Z])]; JStr [104; 105]]]] in
+  json_wf j = true /\
+  from_json stub_leaves (ty_of c) j
+  = Some ([1; 0; 0; 0] ++ [7] ++ [1; 254; 255; 255; 255; 255; 255; 255; 255] ++ [2; 0; 0; 0; 104; 105])
+  /\ denote c j = Some [(7, (Some (-2)%Z, [104; 105]))].
+Proof. vm_compute. repeat split; reflexivity. Qed.
+Print Assumptions contract_encoding_nonvacuous.
+
+(** * Decoder fuel: any fuel above the input length gives the result of the entry point, whether a
+    value or an error - the fuel is never what stops a schema decoder. *)
+Theorem schema_decoder_fuel_type : forall f bs, (length bs < f)%nat -> dec_ty f bs = dec_ty_top bs.
+Proof. exact dec_ty_fuel. Qed.
+Print Assumptions schema_decoder_fuel_type.
+
+Theorem schema_decoder_fuel_versioned : forall f bs, (length bs < f)%nat -> dec_versioned f bs = dec_versioned_top bs.
+Proof. exact dec_versioned_fuel. Qed.
+Print Assumptions schema_decoder_fuel_versioned.
+
+Theorem schema_decoder_fuel_unversioned : forall f v bs, (length bs < f)%nat -> dec_module_body f v bs = dec_module_top v bs.
+Proof. exact dec_module_fuel. Qed.
+Print Assumptions schema_decoder_fuel_unversioned.
+
+Theorem schema_decoder_fuel_functions : forall f bs, (length bs < f)%nat ->
+  dec_f1 f bs = dec_f1_top bs /\ dec_f2 f bs = dec_f2_top bs.
+Proof. exact (fun f bs H => conj (dec_f1_fuel f bs H) (dec_f2_fuel f bs H)). Qed.
+Print Assumptions schema_decoder_fuel_functions.
